@@ -51,6 +51,9 @@ TRUSTED_BASE = [
     "theorem; its laws (Codec.Lawful: output <= max_length, data_available implies non-empty output, concatenated outputs "
     "refine the one-shot decode) are only tested, on every generated payload, against the real ZLibDecompressor / "
     "BrotliDecompressor / ZSTDDecompressor",
+    "Brotli (python binding 1.2) honours max_length only up to whole output blocks of doubling size: a call returns up to "
+    "2*max_length + 32 KiB (known finding K7); the additive-slack form of Codec.Lawful.bounded fits zlib and zstd (slack 0) and "
+    "brotli only for max_length <= 32 KiB",
     "the correspondence run replays recorded decompressor results into the model (scripted codec), so it validates the "
     "pipeline control flow, not the decompressors",
     "in-memory transport: pause_reading/resume_reading honoured exactly; connection_lost(None) is delivered even while "
@@ -77,7 +80,12 @@ ASSUMPTIONS = [
     "progress is judged for a consumer that keeps reading, with the complete body on the wire",
 ]
 MAXSIZE = sys.maxsize
-BROTLI_SLACK = 32768   # Brotli's Decompressor.process(data, limit) may exceed `limit` by up to one block
+BROTLI_SLACK = 32768
+# Brotli's Decompressor.process(data, limit) fills whole output blocks of doubling size (32 KiB, 64 KiB, 128 KiB, ...) and
+# stops only when the total is >= limit: a call returns up to 2*limit + 32 KiB (measured: limit 1 -> 32752, 32753 -> 98272,
+# 100000 -> 229328).  That is known finding K7; anything beyond this shape is a different violation.
+def brotli_call_max(m):
+    return 2 * m + BROTLI_SLACK
 LIMITS = [1, 2, 3, 5, 16, 100, 1024, 4096, 4096, 16384, 65536]
 
 
@@ -938,11 +946,11 @@ def oracle(ctx, case, info):
     if header_encoding(enc) and info["low"] < MAXSIZE:
         bound = info["high"] + 2 * max(limit, info["low"])
         if info["peak"] > bound:
-            per_call_ok = all(o is None or m == 0 or len(o) <= m + BROTLI_SLACK for (_i, m, o, _a, _e) in info["calls"])
-            if enc == "br" and info["peak"] <= bound + 2 * BROTLI_SLACK and per_call_ok:
+            per_call_ok = all(o is None or m == 0 or len(o) <= brotli_call_max(m) for (_i, m, o, _a, _e) in info["calls"])
+            if enc == "br" and info["peak"] <= info["high"] + 2 * brotli_call_max(max(limit, info["low"])) and per_call_ok:
                 ctx.violation("C09/memory/brotli-overshoots-max-length", c,
                               f"peak buffered {info['peak']} > high_water {info['high']} + 2*max(limit, low_water) = {bound}: "
-                              f"brotli returns up to one 32 KiB block per call whatever max_length says")
+                              f"brotli returns whole output blocks (32 KiB, 64 KiB, ... up to 2*max_length + 32 KiB per call) whatever max_length says")
             else:
                 ctx.violation("C09/memory/decoded-resident-exceeds-bound", c,
                               f"peak buffered {info['peak']} > high_water {info['high']} + 2*max(limit, low_water) = {bound}")
@@ -960,8 +968,8 @@ def oracle(ctx, case, info):
 
 
 def _law_bounded(ctx, case, enc, n, m):
-    if enc == "br" and n <= m + BROTLI_SLACK:
-        ctx.violation("C09/memory/brotli-overshoots-max-length", case, f"br: output {n} > max_length {m} (within one 32 KiB block)")
+    if enc == "br" and n <= brotli_call_max(m):
+        ctx.violation("C09/memory/brotli-overshoots-max-length", case, f"br: output {n} > max_length {m} (whole doubling blocks, <= 2*max_length + 32 KiB)")
     else:
         ctx.violation("C09/codec-law/bounded", case, f"{enc}: output {n} > max_length {m}")
 
